@@ -475,6 +475,8 @@ def options_constraints_and_loads(vk, cfg):
     u = vk.reals("u", (npts, dim), near=unear, spread=0.05)
     fc = fem.FieldContainer([fem.Field(rg, dim=dim, values=u)])
     skip = tuple(c == "1" for c in cfg["skip"]) if cfg.get("skip") else (False, False, False)
+    if cfg.get("skip") == "101":
+        skip = tuple(int(b_) for b_ in skip)  # 0 / 1 flags as in the documented examples (skip=(1, 0, 0))
     kw = {}
     if item_kind == "mpc":
         mk = lambda: fem.MultiPointConstraint(fc, points=[0, 2, 3], centerpoint=4, multiplier=kmul)
@@ -537,7 +539,7 @@ def options_constraints_and_loads(vk, cfg):
     r, K = assemble_pair(vk, item, fc)
     tangent_obligations(vk, r, K, x, symmetric=True, label="skip/")
     R = r.reshape(npts, dim)
-    sk = np.array(skip)
+    sk = np.array(skip, dtype=bool)
     vk.ensures_eq("skip/no contact force on a skipped axis", R[:, sk], 0 * R[:, sk])
     dofs = np.arange(npts * dim).reshape(npts, dim)
     vk.ensures_eq("skip/no stiffness on a skipped axis (rows)", K[dofs[:, sk].ravel()], 0 * K[dofs[:, sk].ravel()])
